@@ -33,8 +33,9 @@ def gen_rates(rng, max_up=300.0, max_down=3000.0):
             t = rng.choice([1.5, 2, 3, 4, 5, 16, 32, 64, 128, 256, 512, 1024, 2048])
             eps = rng.choice([0, 1e-9, -1e-9, 1e-5, -1e-5, 1e-3, -1e-3])
             ir, orr = (t * (1 + eps), 1) if rng.chance(.5) else (1, t * (1 + eps))
-        elif c == 5:   # coprime L/M
-            a, b = 1 + rng.below(400), 1 + rng.below(400)
+        elif c == 5:   # coprime L/M; a third of them around the planner's limit for an exact poly-phase table (L <= 2048, table size vs coef_size_kbytes)
+            hi = 400 if rng.chance(.65) else 4500
+            a, b = 1 + rng.below(hi), 1 + rng.below(hi)
             ir, orr = a, b
         elif c == 6:   # near-rational
             p, q = 1 + rng.below(20), 1 + rng.below(20)
